@@ -159,10 +159,14 @@ def build_harness(timeout=1800):
     if not os.path.exists(lock_dst):
         shutil.copy(lock_src, lock_dst)
     t0 = time.time()
-    rc, out = sh("cargo build --offline --target-dir %s 2>&1" % os.path.join(CACHE, "target"), cwd=hdir, timeout=timeout)
+    tdir = os.path.join(CACHE, "target")
+    rc, out = sh("cargo build --offline --target-dir %s 2>&1" % tdir, cwd=hdir, timeout=timeout)
     if rc != 0:
         raise TieBroken("harness-build", out[-3000:])
-    return os.path.join(CACHE, "target", "debug", "h1"), time.time() - t0
+    h1 = os.path.join(tdir, "debug", "h1")
+    if not os.path.exists(h1):
+        raise TieBroken("harness-build", "no binary at %s after the build" % h1)
+    return h1, time.time() - t0
 
 
 def build_binary(timeout=1800):
@@ -224,10 +228,14 @@ dashmap = { path = "../harness/vendor/dashmap" }
     lock_dst = os.path.join(hdir, "Cargo.lock")
     if not os.path.exists(lock_dst):
         shutil.copy(os.path.join(REPO, "Cargo.lock"), lock_dst)
-    rc, out = sh("cargo build --offline --target-dir %s 2>&1" % os.path.join(CACHE, "target_h4"), cwd=hdir, timeout=timeout)
+    tdir = os.path.join(CACHE, "target_h4")          # the SAME directory is passed to cargo and returned
+    rc, out = sh("cargo build --offline --target-dir %s 2>&1" % tdir, cwd=hdir, timeout=timeout)
     if rc != 0:
         raise TieBroken("h4-build", out[-3000:])
-    d = os.path.join(CACHE, "target_h4", "debug")
+    d = os.path.join(tdir, "debug")
+    for b in ("h4", "pls_h4"):
+        if not os.path.exists(os.path.join(d, b)):
+            raise TieBroken("h4-build", "no binary at %s after the build" % os.path.join(d, b))
     return os.path.join(d, "h4"), os.path.join(d, "pls_h4")
 
 
